@@ -14,12 +14,12 @@ use crate::{for_elem, for_pair};
 
 pub fn run(c: &mut Ctx) {
     c.run_scenarios(|c, idx, rng| {
-        let which = idx % 3;
+        let which = crate::util::mix(idx) % 3;
         if which < 2 {
-            let pair = PAIRS[((idx / 3) % PAIRS.len() as u64) as usize];
+            let pair = PAIRS[((crate::util::mix(idx) / 3) % PAIRS.len() as u64) as usize];
             for_pair!(pair, map_scenario(c, idx, rng));
         } else {
-            let e = ELEMS[((idx / 3) % ELEMS.len() as u64) as usize];
+            let e = ELEMS[((crate::util::mix(idx) / 3) % ELEMS.len() as u64) as usize];
             for_elem!(e, table_scenario(c, idx, rng));
         }
     });
